@@ -12,7 +12,7 @@ from sa.report import Ctx
 
 from .common import generic_sweeps
 
-from .graph_common import neighbor_loops, node_derived_sets, node_universe_filtered
+from .graph_common import edge_wrapper_adjacency, neighbor_loops, node_derived_sets, node_universe_filtered
 from .sat_common import _enclosing_block
 
 EXPLANATION = (
@@ -73,6 +73,9 @@ def run(ctx: Ctx):
             bad = node_universe_filtered(g, loop, w, sets)
             ctx.ob("C14-O1", "R18 SIBLING-AGREEMENT (policy)", g, f"callback neighbour `{w}` is used only after a membership test against the node set", not bad, f"node-derived sets {sorted(sets)}; unguarded uses at lines {sorted({b.lineno for b in bad})}: a neighbour outside `nodes` becomes a node of the answer" if bad else "", node=loop)
     ctx.floor("neighbour loops in scc.py", n_loops, 3)
+    # the edge-list variants hand the generic routines the graph they were given
+    for wname in ("strongly_connected_components_edges", "topological_sort_edges"):
+        ctx.step(edge_wrapper_adjacency, "C14-O1", ctx.func("scc", wname), wname)
 
     # O2 Tarjan
     sc = ctx.func("scc", "strongly_connected_components.strongconnect")
@@ -216,7 +219,14 @@ def _t_reformat(tree):
     pass
 
 
+def _v_edges_wrappers_drop_self_loops(tree):
+    for name in ("strongly_connected_components_edges", "topological_sort_edges"):
+        g = M.find_func(tree, name)
+        M.replace_stmt(g, lambda st: isinstance(st, ast.Expr) and M.src_is(st.value, "adj[u].append(v)"), lambda st: M.stmts("if u != v:\n    adj[u].append(v)"))
+
+
 VARIANTS = [
+    M.Variant("edge-list wrappers drop self loops while building the successor lists (seed C14-O)", SC, _v_edges_wrappers_drop_self_loops, "C14-O1"),
     M.Variant("SCC follows neighbours outside the node set (original defect)", SC, _v_no_filter, "C14-O1"),
     M.Variant("topological_sort counts edges to unknown nodes", SC, _v_topo_no_filter, "C14-O1"),
     M.Variant("Tarjan ignores edges to on-stack nodes", SC, _v_lowlink_of_onstack, "C14-O2"),
